@@ -27,7 +27,7 @@ PROPS = {
                 "three routes: ChainReducer::reduce(c,true); a manual schedule of reduce_all(shallow/deep) / reduce_at / reduce_at_spec(i, Rows|Cols, One|AnyUnit|Weight(1,2,5)) with per-degree tracking flags and 0-2 tracked vectors per degree; "
                 "ChainComplexBase::reduced(); x rayon pools of 1,2,4,8,16 threads x hook schedule policies (sleep before the pivot write lock, herd, delayed column starts); "
                 "checks (oracle products): shapes, d'd' = 0, f d = d' f, d b = b d', f b = id, tracked vector = f(v), homology of the reduced complex = homology of the original "
-                "(own SNF; over Z[H] after H := 0,1,2,-1 and additionally mod 2 and 3); non-trivial = at least one generator pair cancelled and >= 2 maps; distinct = hash(differentials, route, schedule, flags)",
+                "(own SNF; over Z[H] after H := 0,1,2,-1 and additionally mod 2 and 3); non-trivial = at least one generator pair cancelled and >= 2 maps; distinct = hash(differentials, route, schedule, flags) Half of the ChainComplexBase::reduced cases call reduced() twice; the transfer maps of the second result are judged against the original complex.",
         "assumptions": COMMON_ASSUME + [
             "b f ~ id (the homotopy) is not checked directly; it is implied for these complexes by f b = id, the chain-map identities and equality of homology decided by the oracle",
             "over Z[H] homology is compared after specialisation (necessary conditions), since Z[H] is not a PID",
